@@ -426,6 +426,9 @@ def _used_names_in_file(filename: Path) -> Collection[str]:
         # What is imported from another file must keep its name over there,
         # whatever it is called here and whether or not it is used here.
         names.extend(alias.name for alias in node.names)
+        if any(alias.name == "*" for alias in node.names):
+            # Whatever is not defined here may come from the star import
+            names.extend(name.id for name in core.walk(ast_root, ast.Name))
 
     return frozenset(names)
 
